@@ -23,6 +23,7 @@ def run(S):
     from .secrets import honest_sequence
     honest_sequence(S, D, 'C06.a.secrets', 8 if S.tier == 'quick' else 32)
     revoked_classification(S, D)
+    claimed_amounts(S, D)
     C07.fee_from_spent(S, D, W)
     C07.bump(S, D, W)
     C07.locktime_and_output(S, D, W)
@@ -47,3 +48,53 @@ def revoked_classification(S, D):
     S.prove('C06.a.revoked_to_local_unpinnable', E, [kind == 0], z3.And(X.zint(rv.d) == MAL, X.zint(cluster.d) == UNPIN),
             'the revoked balance output can only be claimed by us before its CSV expires, so it is aggregated with other unpinnable claims')
     S.no_panic('C06.a.nopanic', E, [], 'classification is total')
+
+
+def claimed_amounts(S, D):
+    """the value a justice / HTLC claim input is credited with equals the value of the HTLC output on the
+    commitment transaction (floor(amount_msat / 1000)); a wrong amount makes the segwit signature - and with
+    aggregation every claim in the same transaction - invalid"""
+    import re
+    E = S.engine()
+    mem = {}
+    f = S.fn('build', first_param='PublicKey', contains='-> package::RevokedHTLCOutput', nargs=5)
+    for nm in ['weight_revoked_offered_htlc', 'weight_revoked_received_htlc']:
+        E.models.insert(0, (re.compile(r'(?:^|::)%s$' % nm), lambda *a: X.I(z3.Int('env.weight'), 'u64')))
+    E.assume(z3.And(z3.Int('env.weight') >= 0, z3.Int('env.weight') < 1 << 32))
+    E.models.insert(0, (re.compile(r'as_counterparty_broadcastable$'), lambda *a: X.Adt('DirectedChannelTransactionParameters', {}, base='directed')))
+
+    def h_keys(E_, m, func, argv, guard, mem_, *r):
+        c = E_.new_cell()
+        mem_[c] = X.Adt('ChannelPublicKeys', {}, base='cpkeys')
+        return X.Ref(c)
+    E.models.insert(0, (re.compile(r'broadcaster_pubkeys$'), h_keys))
+    args = [E.sym('a%d' % n, t, mem) for n, t in f.params]
+    rv = S.call(E, f, args, mem)
+    htlc = args[2]
+    amt_msat = field(E, D, 'HTLCOutputInCommitment', 'amount_msat', htlc, 'u64').t
+    offered = field(E, D, 'HTLCOutputInCommitment', 'offered', htlc, 'bool').t
+    stored = field(E, D, 'RevokedHTLCOutput', 'amount', rv, 'u64').t
+    # PackageSolvingData::amount on a symbolic input of each HTLC kind
+    fa = S.fn('amount', first_param='PackageSolvingData')
+    sd = E.sym('sd', fa.params[0][1], mem)
+    am = S.call(E, fa, [sd], mem)
+    v = mem[sd.cell]
+    kind = X.zint(v.d)
+    HO = D.struct_fields('HTLCOutputInCommitment')
+
+    def htlc_amt(variant):
+        o = E.read_path(v, (('v', variant), ('f', 0, 'package::' + variant)), mem, True, 'spec')
+        h = E.read_path(o, (('f', D.field_index(variant, 'htlc'), 'chan_utils::HTLCOutputInCommitment'),), mem, True, 'spec')
+        return E.read_path(h, (('f', HO.index('amount_msat'), 'u64'),), mem, True, 'spec').t
+    rev = E.read_path(v, (('v', 'RevokedHTLCOutput'), ('f', 0, 'package::RevokedHTLCOutput')), mem, True, 'spec')
+    rev_amount = field(E, D, 'RevokedHTLCOutput', 'amount', rev, 'u64').t
+    b = Binding('revoked_htlc_claim_amount', [amt_msat, offered], [stored, None], parse=lambda t: [int(t[0]), None])
+    S.prove('C06.a.revoked_htlc_amount', E, [], stored == amt_msat / 1000,
+            'the justice input for a revoked HTLC output is credited with exactly the value of that output: floor(amount_msat / 1000) satoshis', [b],
+            bounds='all u64 HTLC amounts, both directions')
+    S.prove('C06.a.claim_amounts', E, [], z3.And(
+        z3.Implies(kind == 1, am.t == rev_amount),
+        z3.Implies(kind == 2, am.t == htlc_amt('CounterpartyOfferedHTLCOutput') / 1000),
+        z3.Implies(kind == 3, am.t == htlc_amt('CounterpartyReceivedHTLCOutput') / 1000)),
+        'the amount a package accounts for each counterparty HTLC input is the on-chain value of that output (floor(msat/1000)); for revoked HTLC inputs it is the amount stored at construction')
+    S.no_panic('C06.a.amounts_nopanic', E, [z3.Or(kind == 0, kind == 1, kind == 2, kind == 3)], 'total for revoked / counterparty HTLC inputs')
